@@ -22,6 +22,8 @@ CONFIGS = {
 CONFIGS["nocyc"] = (annenv.tcfg(cyclic=0, annTTL=FOREVER, collect=0, reps=2, base=1), FOREVER, 0, 9, False)
 NO_SRV_CRASH = {"nocyc"}
 GRACEFUL_ONLY = {"inf1"}
+# the watcher holds two overlapping auto-subscriptions (any instance / instance 1) and withdraws the first one at some point
+CONFIGS["two"] = CONFIGS["fin"]
 # both stacks have been up for a long time before the run: their session counters have wrapped once (reboot flag cleared)
 # and wrap a second time a few messages into the run
 BURN = {"wrap": 65535 + 65531}
@@ -91,7 +93,7 @@ def gen_faults(rng, lossy, n_max, t_max, graceful=False, no_srv_crash=False):
 
 def run(cfgname, faults):
     tc, sub_ttl, refresh, bound, _ = CONFIGS[cfgname]
-    net = net2.Net(tc, sub_ttl, refresh, burn=BURN.get(cfgname, 0))
+    net = net2.Net(tc, sub_ttl, refresh, burn=BURN.get(cfgname, 0), two_subs=(cfgname == "two"))
     t_end = (max([f["t"] + f.get("d", 0) for f in faults]) if faults else 0) + bound + 2 * tc["cyclic"] + 3
     ev = net.run(faults, t_end)
     return ev
@@ -104,6 +106,8 @@ def traces_for(seed, count, n_max):
         rng = random.Random("c04/%s/%s" % (seed, n))
         name = names[n % len(names)]
         faults = gen_faults(rng, CONFIGS[name][4], n_max, 60, name in GRACEFUL_ONLY, name in NO_SRV_CRASH) if n >= len(names) else []
+        if name == "two":
+            faults = sorted(faults + [{"t": rng.randint(1, 30), "kind": "unfind", "node": "wat"}], key=lambda f: f["t"])
         ev = run(name, faults)
         out.append({"cfg": mcfg(name), "ev": monpass.add_adv(ev), "faults": faults, "config": name,
                     "diag": {"config": name, "pattern": "F1" if f1_pattern(ev, name) else "",
@@ -247,7 +251,7 @@ def check(ctx):
     from .. import conform
     acc = total = 0
     worst = None
-    for name in CONFIGS:
+    for name in [c for c in CONFIGS if c != "two"]:      # (the second auto-subscription is not part of SD2.tla)
         sel = [t for t in traces if t["config"] == name][: ctx.pick(30, 250)]
         for t in sel:
             t["ticks"] = conform.ticks_of([e for e in t["ev"] if e.get("k") != "adv"])
